@@ -79,3 +79,14 @@ Theorem C01_kernel_CX_sound : forall K (O : Ops K), Laws O -> forall p a0 a1 (ps
   kernel_CX O p a0 a1 psi i = apply O (mat_of O [2; 2] (spec_CXPow O (ki O) (kopp O (ki O)) p)) [2; 2] [a0; a1] psi i.
 Proof. exact @kernel_CX_sound. Qed.
 Print Assumptions C01_kernel_CX_sound.
+
+(* the tabulated tensors that are actually executed refine the function semantics the theorems speak about *)
+From VF Require Import Base.TabProofs.
+Theorem C01_untab_tab : forall K (O : Ops K) sh (psi : tensor (K:=K)) i, Forall2 lt i sh ->
+  untab O sh (tab sh psi) i = psi i.
+Proof. exact @untab_tab. Qed.
+Print Assumptions C01_untab_tab.
+Theorem C01_apply_tab_refines : forall K (O : Ops K) (M : matrix (K:=K)) dims ax sh l i, Forall2 lt i sh ->
+  untab O sh (apply_tab O M dims ax sh l) i = apply O (mat_of O dims M) dims ax (untab O sh l) i.
+Proof. exact @apply_tab_refines. Qed.
+Print Assumptions C01_apply_tab_refines.
